@@ -761,9 +761,12 @@ def has_side_effect(node: ast.AST, safe_callable_whitelist: Collection[str] = fr
 
 @functools.lru_cache(maxsize=100)
 def _get_line_start_charnos(source: str) -> Sequence[int]:
+    # Lines are numbered like the python parser numbers them: only \n, \r\n and \r end a line.
+    # str.splitlines() also splits on form feeds, \v, \x1c-\x1e, \x85, \u2028 and \u2029, which
+    # puts every lineno after such a character (e.g. in a string) on the wrong line.
     start = 0
     charnos = []
-    for line in source.splitlines(keepends=True):
+    for line in re.findall(r"[^\r\n]*(?:\r\n|\r|\n)|[^\r\n]+", source):
         charnos.append(start)
         start += len(line)
     return tuple(charnos)
